@@ -85,6 +85,12 @@ class NArr:
     def __repr__(self):
         return f"NArr{self.shape}{self.data}"
 
+    def __iter__(self):
+        return iter(self.rows())
+
+    def __len__(self):
+        return self.shape[0]
+
     def rows(self):
         if len(self.shape) == 1:
             return list(self.data)
